@@ -340,6 +340,7 @@ def check(ctx):
     ophist, stmthist = {}, {}
     distinct = set()
     failures = {}     # signature -> first case
+    foreign = {}      # foreign-crash signature -> first case
 
     def account(cases, verdicts):
         for c, v in zip(cases, verdicts):
@@ -349,6 +350,7 @@ def check(ctx):
                 continue
             if v == "foreign-crash":
                 stats["foreign_crashes"][c.sig] = stats["foreign_crashes"].get(c.sig, 0) + 1
+                foreign.setdefault(c.sig, c)
             if v in ("violation", "harness-died"):
                 failures.setdefault(c.sig, c)
             if c.hline and c.hline.startswith("dump "):
@@ -437,6 +439,11 @@ def check(ctx):
     ctx.stats.update({k: v for k, v in stats.items()})
     ctx.stats["statement_histogram"] = stmthist
     ctx.stats["gen_wall_s"] = round(time.time() - t_gen, 1)
+    for sig, c in sorted(foreign.items())[:4]:
+        small = shrink(exe, c, budget_s=15 if quick else 40, max_tests=300)
+        evaluate(exe, [small])
+        path = save_case(ctx, small, "foreign-crash", "not-a-C02-violation")
+        ctx.notes.append("foreign crash %s: %s (%d lines) %s" % (sig, path, small.src.count("\n"), json.dumps(small.src[:400])))
     if stats["foreign_crashes"]:
         ctx.notes.append("sanitizer aborts outside C02 (all recorded transitions agree with the abstract VM; memory safety of commands and value operations is C04): %s" % json.dumps(stats["foreign_crashes"]))
     sample_gen = bcgen.Gen(ctx.rng("sample"), size=3, labels=1)
